@@ -11,6 +11,8 @@ META = {
     "not_decided": "bounded own-steps as a scheduler-quantified claim (e.g. that a lock-free retry loop is only re-entered when another thread made progress)",
 }
 
+META["explanation"] += " " + 'Also: retry discipline of lock-free operations: every restart edge of a retry loop is preceded, in that iteration, by an atomic update of shared memory (own or helping cmpxchg); one hand-confirmed exemption.'
+
 WAITFREE = [("cds", "cds_wfcq_enqueue"), ("cds", "cds_wfs_push"), ("cds", "__cds_wfs_pop_all"), ("cds", "__cds_lfs_pop_all"), ("cds", "cds_wfs_empty"),
             ("cds", "cds_wfcq_empty"), ("cds", "cds_lfs_empty"),
             ("memb", "urcu_memb_read_lock"), ("memb", "urcu_memb_read_unlock"), ("mb", "urcu_mb_read_lock"), ("mb", "urcu_mb_read_unlock"),
